@@ -15,7 +15,7 @@
 // Oracle (2) convergence: after the writers have stopped and no message has
 // arrived for >= 5 publishing intervals, for every still monitored node the
 // last delivered value equals a fresh Read. A mismatch is re-checked for up to
-// 3 more seconds and then confirmed by re-running the whole case twice on a
+// 6 more seconds and then confirmed by re-running the whole case twice on a
 // fresh server (DESIGN 3.4); only 3/3 is a violation, otherwise inconclusive.
 // Cases with Dropped() > 0 (documented slow-consumer drop) skip clause (2).
 package c28
@@ -599,7 +599,7 @@ func execute(c Case, fresh bool) (res result, err error) {
 		}
 		if d != "" {
 			// DESIGN 3.4: a timing verdict is re-checked after waiting longer
-			until := time.Now().Add(3 * time.Second)
+			until := time.Now().Add(6 * time.Second)
 			for d != "" && time.Now().Before(until) {
 				time.Sleep(50 * time.Millisecond)
 				if d, e = diverged(); e != nil {
@@ -676,6 +676,14 @@ func decide(c *Case, log func(string, ...any)) (msg string, res result, err erro
 		return "", res, err
 	}
 	obs := res.observed
+	defer func() {
+		if msg == "" && err == nil {
+			// keep what an unconfirmed failure looked like in the shard log
+			cj, _ := json.Marshal(c)
+			oj, _ := json.Marshal(obs)
+			fmt.Printf("C28 INCONCLUSIVE first run: %s\n  observed: %s\n  case: %s\n", res.verdict, oj, cj)
+		}
+	}()
 	if !res.timing {
 		c.Observed = &obs
 		return res.verdict, res, nil
@@ -702,7 +710,7 @@ func decide(c *Case, log func(string, ...any)) (msg string, res result, err erro
 }
 
 func TestMonitor(t *testing.T) {
-	rec.Assume("trusted base: the writers' and the reader's gopcua clients as observers; the value encoding nodeIndex*1e6+k; wall-clock quiescence (5 publishing intervals without a message after the writers returned), re-checked for 3 s and confirmed 3/3 on fresh servers before a convergence failure is reported")
+	rec.Assume("trusted base: the writers' and the reader's gopcua clients as observers; the value encoding nodeIndex*1e6+k; wall-clock quiescence (5 publishing intervals without a message after the writers returned), re-checked for 6 s and confirmed 3/3 on fresh servers before a convergence failure is reported")
 	rec.Assume("benign parameters: MaxKeepAliveCount 5, LifetimeCount 2000, request timeout 10 s, channel buffer 65536, consumers only append to a slice; any error of AddNodes/RemoveNodes/Write/Read on the healthy loopback server is an infrastructure failure (exit 2), never a violation")
 	rapid.Check(t, func(rt *rapid.T) {
 		c := genCase(rt)
